@@ -2,8 +2,8 @@
    Directives: ExtrOcamlBasic only (bool, option, list, prod, unit, sumbool ->
    OCaml's; nat, N, positive, string, ascii stay extracted inductives). *)
 From Coq Require Import Extraction ExtrOcamlBasic.
-From O1722 Require Import Spec Views AccModel Oracle.
+From O1722 Require Import Spec Views LegacySpec AccModel Oracle.
 From O1722.Generated Require Import Tables.
 Extraction Language OCaml.
 Extraction "oracle_core.ml" m_getter m_setter m_init m_rawget m_rawset s_get s_set s_init m_helper
-  all_specs canonical_header spec_extract spec_insert cfg view_groups.
+  all_specs canonical_header spec_extract spec_insert cfg view_groups m_legacy legacy_api.
